@@ -488,6 +488,12 @@ impl IndexCatalog {
         property_key: PropertyKeyId,
         index_type: IndexType,
     ) -> IndexId {
+        let mut indexes = self.indexes.write();
+        let mut label_indexes = self.label_indexes.write();
+        let mut label_property_indexes = self.label_property_indexes.write();
+
+        // Allocated under the locks (as the name dictionaries do): an id that has been
+        // handed out must never be observable as "no such index" by a concurrent caller
         let id = IndexId::new(self.next_id.fetch_add(1, Ordering::Relaxed));
         let definition = IndexDefinition {
             id,
@@ -495,10 +501,6 @@ impl IndexCatalog {
             property_key,
             index_type,
         };
-
-        let mut indexes = self.indexes.write();
-        let mut label_indexes = self.label_indexes.write();
-        let mut label_property_indexes = self.label_property_indexes.write();
 
         indexes.insert(id, definition);
         label_indexes.entry(label).or_default().push(id);
